@@ -34,6 +34,7 @@ type Options struct {
 	KnownFile  string
 	NoNative   bool
 	NativeRace bool
+	ExtraInit  string
 	Verbose    bool
 	ReplayOnly string
 	Level      string
@@ -267,6 +268,7 @@ func main() {
 	flag.StringVar(&o.Cfg.SolverName, "solver", "z3", "z3|z3-new|cvc5")
 	flag.IntVar(&timeoutS, "timeout", 0, "overall time budget in seconds (0 = none)")
 	flag.IntVar(&o.Cfg.PathWorkers, "path-workers", 0, "parallel path workers per harness (0 = auto)")
+	flag.StringVar(&o.ExtraInit, "init", "", "comma separated extra packages whose init runs at the start of every path")
 	flag.BoolVar(&o.NativeRace, "native-race", false, "run native replays one by one under the Go race detector")
 	flag.BoolVar(&o.NoNative, "no-native", false, "skip native replays (debugging only)")
 	flag.BoolVar(&o.Verbose, "v", false, "verbose")
@@ -320,6 +322,11 @@ func runCheck(o *Options) int {
 		switch p.Pkg.Path() {
 		case "go/token", "go/ast":
 			initPkgs = append(initPkgs, p)
+		}
+		for _, x := range strings.Split(o.ExtraInit, ",") {
+			if x != "" && p.Pkg.Path() == x {
+				initPkgs = append(initPkgs, p)
+			}
 		}
 		if strings.HasPrefix(p.Pkg.Path(), "github.com/dave/dst") && !strings.Contains(p.Pkg.Path(), "gendst") {
 			initPkgs = append(initPkgs, p)
@@ -445,6 +452,10 @@ func initOrder(p *ssa.Package) int {
 		return 1
 	case "go/ast":
 		return 2
+	case "go/constant":
+		return 2
+	case "go/types":
+		return 3
 	case "github.com/dave/dst":
 		return 3
 	}
